@@ -297,12 +297,14 @@ class ExecutionContext:
                     else:
                         return None
                 case LinearIR.OpCode.CALL:
-                    args = [
+                    # Must not reuse 'args', which holds the arguments of the
+                    # function that is being executed
+                    callArguments = [
                         localScope[arg.Reference]
                         for arg in instruction.Arguments
                     ]
                     localScope[instruction.Reference] = self._Invoke(
-                        instruction.Function, args
+                        instruction.Function, callArguments
                     )
                 case LinearIR.OpCode.NEW_VARIABLE:
                     varType = instruction.Type
